@@ -299,6 +299,38 @@ def compare(part, row, fmt, vtag, ps, new, text, case, cell):
             part.fail("text-unreadable:poscar:%s" % sk, "POSCAR text unreadable by the reference reader: %r" % e, case)
 
 
+def multiblock(part, rows):
+    """a CIF file holding two crystals: loading returns one crystal per data block, each equal to its source; data_block_name selects one"""
+    from chmpy.crystal import Crystal
+
+    if len(rows) < 2:
+        return
+    a, _ = build(rows[0], "default", "default", "memory")
+    b, _ = build(rows[1], "oblique", "two_letter", "memory")
+    a.properties["titl"], b.properties["titl"] = "first", "second_block"
+    text = a.to_cif_string().replace("#END", "") + b.to_cif_string()
+    case = {"kind": "multiblock", "settings": [[rows[0]["number"], rows[0]["choice"]], [rows[1]["number"], rows[1]["choice"]]]}
+    part.ev()
+    part.tr()
+    try:
+        got = Crystal.from_cif_string(text)
+        one = Crystal.from_cif_string(text, data_block_name="second_block")
+    except Exception as e:
+        part.fail("multiblock-raise", "CIF with two data blocks raised %s: %s" % (type(e).__name__, str(e)[:80]), case)
+        return
+    if not isinstance(got, dict) or sorted(got) != ["first", "second_block"]:
+        part.fail("multiblock-names", "CIF with two data blocks gives %r" % (sorted(got) if isinstance(got, dict) else type(got).__name__), case)
+        return
+    for name, src in (("first", a), ("second_block", b)):
+        for label, c in ((name, got[name]),) + (((name + " (by name)", one),) if name == "second_block" else ()):
+            ps, ns = xtal.public_state(src), xtal.public_state(c)
+            if ns["number"] != ps["number"] or ns["codes"] != ps["codes"] or ns["Z"] != ps["Z"] or ns["labels"] != ps["labels"] \
+                    or ns["pos"].shape != ps["pos"].shape or np.abs(ns["pos"] - ps["pos"]).max() > 5e-13 \
+                    or np.abs(np.array(ns["lengths"]) - np.array(ps["lengths"])).max() > 1e-9:
+                part.fail("multiblock-content", "data block %s of a two-block CIF does not reproduce its crystal" % label, case)
+    part.outcome(("multiblock", rows[0]["number"] % 3))
+
+
 def worker(part, rows, tier):
     tmpdir = tempfile.mkdtemp(prefix="c10_", dir=os.environ.get("VERIF_SCRATCH", "/dev/shm" if os.path.isdir("/dev/shm") else None))
     try:
@@ -308,6 +340,7 @@ def worker(part, rows, tier):
                     roundtrip(part, row, fmt, var, tmpdir)
             part.nontriv("%d:%s" % (row["number"], row["choice"]))
             part.state("%d:%s" % (row["number"], row["choice"]))
+        multiblock(part, rows)
         if rows and rows[0]["number"] in (14, 167):
             c, _ = build(rows[0], "default", "default", "memory")
             part.sample({"setting": "%d:%s" % (rows[0]["number"], rows[0]["choice"]), "res_text": c.to_shelx_string().split("\n")[:8]})
@@ -333,6 +366,10 @@ def run(ctx):
 
 def replay(ctx, case):
     table = symm.load_table()
+    if case.get("kind") == "multiblock":
+        rows = [r for (n, ch) in case["settings"] for r in table if r["number"] == n and r["choice"] == ch]
+        multiblock(ctx, rows)
+        return
     tmpdir = tempfile.mkdtemp(prefix="c10_")
     try:
         for r in table:
